@@ -2,10 +2,12 @@
 
 use crate::{report::Report, worker::{CaseDesc, CaseOut}, Args};
 
+pub mod c01;
 pub mod c10;
 
 pub fn dispatch(args: &Args) -> Option<Report> {
     Some(match args.prop.as_str() {
+        "c01" => c01::run(args),
         "c10" => c10::run(args),
         _ => return None,
     })
